@@ -127,6 +127,36 @@ def yaml_for(methods, internal, version=P, extra=''):
     return y + extra
 
 
+RPCS4 = [('Jobs', 'Run'), ('Jobs', 'Purge'), ('Jobs', 'Wipe'), ('Jobs', 'Plain')]
+
+
+def graph4():
+    """LRO shapes: result + metadata, Empty result + metadata, result + Empty metadata; each type reachable through one RPC only."""
+    msgs = [
+        message('RunRequest', [field('name', 1, 'string')]),
+        message('RunResult', [field('out', 1, 'string'), field('detail', 2, Q('RunDetail'))]), message('RunDetail', [field('n', 1, 'int32')]),
+        message('RunMeta', [field('pct', 1, 'int32'), field('stage', 2, 'enum:' + Q('RunStage'))]),
+        message('PurgeRequest', [field('name', 1, 'string')]),
+        message('PurgeMeta', [field('done_count', 1, 'int32'), field('stage', 2, Q('PurgeStage'))]),
+        message('PurgeStage', [field('s', 1, 'string'), field('level', 2, 'enum:' + Q('PurgeLevel'))]),
+        message('WipeRequest', [field('name', 1, 'string')]),
+        message('WipeResult', [field('w', 1, Q('WipeDetail'))]), message('WipeDetail', [field('d', 1, 'string')]),
+        message('PlainRequest', [field('name', 1, 'string')]), message('PlainResponse', [field('p', 1, Q('OnlyPlain'))]),
+        message('OnlyPlain', [field('v', 1, 'string')]),
+    ]
+    enums = [enum('RunStage', 'RUN_STAGE_UNSPECIFIED', 'RS1'), enum('PurgeLevel', 'PURGE_LEVEL_UNSPECIFIED', 'PL1')]
+    jobs = service('Jobs', [
+        method('Run', Q('RunRequest'), OPERATION, http=('post', '/v1/{name=jobs/*}:run', '*'), lro=('RunResult', 'RunMeta')),
+        method('Purge', Q('PurgeRequest'), OPERATION, http=('post', '/v1/{name=jobs/*}:purge', '*'),
+               lro=('google.protobuf.Empty', 'PurgeMeta')),
+        method('Wipe', Q('WipeRequest'), OPERATION, http=('post', '/v1/{name=jobs/*}:wipe', '*'),
+               lro=(f'{P}.WipeResult', 'google.protobuf.Empty')),
+        method('Plain', Q('PlainRequest'), Q('PlainResponse'), http=('get', '/v1/{name=plains/*}'))])
+    f = file('acme/sel/v1/jobs.proto', P, messages=msgs, enums=enums, services=[jobs])
+    f.dependency.extend(desc.std_dep_names())
+    return [f]
+
+
 # ---------------------------------------------------------------- reference closure
 
 def closure(files, kept):
@@ -219,8 +249,8 @@ def closure(files, kept):
 
 
 def make_job(subset, internal, transport='grpc+rest', g=1):
-    files = graph() if g == 1 else graph2(ops_first=(g == 3))
-    rpcs = RPCS if g == 1 else RPCS2
+    files = graph() if g == 1 else graph4() if g == 4 else graph2(ops_first=(g == 3))
+    rpcs = RPCS if g == 1 else RPCS4 if g == 4 else RPCS2
     param = f'transport={transport},autogen-snippets=false'
     of = None
     if subset is not None:
@@ -267,8 +297,9 @@ def run(ctx, only=None):
             continue
         jobs.append(make_job(s, internal))
     full_at = {1: 0}
-    subsets2 = [tuple(c) for n in range(1, len(RPCS2) + 1) for c in itertools.combinations(RPCS2, n)]
-    for g_ in (2, 3):
+    for g_ in (2, 3, 4):
+        rp = RPCS4 if g_ == 4 else RPCS2
+        subsets2 = [tuple(c) for n in range(1, len(rp) + 1) for c in itertools.combinations(rp, n)]
         full_at[g_] = len(jobs)
         jobs.append(make_job(None, False, g=g_))
         for s2, internal in itertools.product(subsets2, (False, True)):
@@ -276,7 +307,7 @@ def run(ctx, only=None):
                 continue
             jobs.append(make_job(s2, internal, g=g_))
     rej = rejection_jobs() if not only else []
-    ctx.log(f'{len(jobs) - 3} selective states (three graphs) + {len(rej)} rejection cells')
+    ctx.log(f'{len(jobs) - 4} selective states (four graphs) + {len(rej)} rejection cells')
     results = engine.run_jobs(jobs + rej)
     fulls = {}
     for g_, at in sorted(full_at.items()):
@@ -308,6 +339,8 @@ def run(ctx, only=None):
             e = obs['import_error']
             bad('import', f'{e["etype"]}|{sid}', f'{e["etype"]}: {e["emsg"][:300]}')
             continue
+        if obs.get('unversioned_error'):
+            bad('unversioned-package', obs['unversioned_error'][:80], f'the unversioned alias package: {obs["unversioned_error"]}')
         present = set(obs['types_present'])
         listed = set(subset)
         # omit mode keeps the polling method a listed extended-operation RPC needs; in internal mode nothing is omitted and
@@ -332,7 +365,7 @@ def run(ctx, only=None):
                     bad('internal-method-name', f'{svc}.{rpc}', f'{exp_client} offers {[m for m in ms if py in m]}, expected {exp_m}')
                 # the asyncio client follows the same naming
                 exp_async = exp_client.replace('Client', 'AsyncClient')
-                if job['_g'] != 1:
+                if job['_g'] in (2, 3):
                     pass        # extended-operation methods exist on the asyncio client only in their *_unary form: not judged
                 elif exp_async not in info.get('clients', []):
                     bad('internal-client-name', f'{svc}/async', f'clients {info.get("clients")} expected {exp_async}')
@@ -374,7 +407,7 @@ def run(ctx, only=None):
                           dict(reject=job['_reject']))
         else:
             ctx.outcome('rejected:' + res['gen']['etype'])
-    ctx.extra['bound'] = 'all 63 non-empty RPC subsets x 2 modes; extended-operation graph: all 15 subsets x 2 modes'
+    ctx.extra['bound'] = f'all {len(subsets)} non-empty RPC subsets x 2 modes; extended-operation graphs and LRO-shape graph: all 15 subsets x 2 modes each'
     ctx.assume('whether the *own fields* of a message that is only needed as the container of a kept nested type count as reachable is not specified: such types are observed, not judged')
 
 
